@@ -51,8 +51,11 @@ vector<string> ApplicationTools::matchingParameters(const string& pattern, const
       }
       pos1 = pos2 + g.length();
     }
+    // the suffix test is only valid after a '*': a pattern without '*' must match the whole name
     if (flag &&
-        ((g.length() == 0) || (pos1 == parn.length()) || (parn.rfind(g) == parn.length() - g.length())))
+        (pattern.find('*') != string::npos ?
+        ((g.length() == 0) || (pos1 == parn.length()) || (parn.rfind(g) == parn.length() - g.length())) :
+        (pos1 == parn.length())))
       retv.push_back(parn);
   }
 
@@ -85,8 +88,11 @@ vector<string> ApplicationTools::matchingParameters(const string& pattern, vecto
       }
       pos1 = pos2 + g.length();
     }
+    // the suffix test is only valid after a '*': a pattern without '*' must match the whole name
     if (flag &&
-        ((g.length() == 0) || (pos1 == parn.length()) || (parn.rfind(g) == parn.length() - g.length())))
+        (pattern.find('*') != string::npos ?
+        ((g.length() == 0) || (pos1 == parn.length()) || (parn.rfind(g) == parn.length() - g.length())) :
+        (pos1 == parn.length())))
       retv.push_back(parn);
   }
 
